@@ -37,9 +37,45 @@ pub fn build_pids(setup: &ClusterSetup, script: &Script, pids: &[u128]) -> Resul
     build_from(crate::props::c07::settled_with_pids(setup.nodes, pids)?, setup, script)
 }
 
+/// as `build`, on a three-node cluster that has been through a fail-over: the primary died, the
+/// survivors elected the older of them (a primary that announced itself over links opened while it
+/// was a secondary); script positions name nodes of the original cluster (n1 is dead)
+pub fn build_after_failover(setup: &ClusterSetup, script: &Script) -> Result<NetWorld, String> {
+    let mut w = crate::props::c07::settled_with_pids(3, &[100, 200, 300])?;
+    let p = (0..3).find(|i| w.role(*i) == nundb::bo::ClusterRole::Primary).ok_or("no primary after bootstrap")?;
+    // the database and its initial data exist on every node before the primary dies
+    let mut lines: Vec<String> = vec![format!("auth {} {}", USER, PWD), format!("create-db t tok {}", setup.strategy), "use-db t tok".into()];
+    lines.extend(setup.init.iter().cloned());
+    let refs: Vec<&str> = lines.iter().map(|s| s.as_str()).collect();
+    w.add_client(p, &refs, false);
+    w.run_to_quiescence(20000)?;
+    w.clients.clear();
+    w.kill_node_noticed(p, false)?;
+    w.run_to_quiescence(20000)?;
+    w.clients.retain(|c| !c.done);
+    let mut per_node: BTreeMap<usize, Vec<String>> = BTreeMap::new();
+    for (n, c) in script.ops.iter() {
+        per_node.entry(*n).or_default().push(c.clone());
+    }
+    let first = w.clients.len();
+    for (n, _) in per_node.iter() {
+        w.add_client(*n, &[&format!("auth {} {}", USER, PWD), "use-db t tok"], false);
+    }
+    w.run_to_quiescence(20000)?;
+    for (ci, (_n, cmds)) in per_node.iter().enumerate() {
+        w.clients[first + ci].script = cmds.iter().cloned().collect();
+        w.clients[first + ci].done = false;
+        w.clients[first + ci].replies.clear();
+    }
+    w.traffic.clear();
+    w.problems.clear();
+    w.steps = 0;
+    Ok(w)
+}
+
 fn build_from(mut w: NetWorld, setup: &ClusterSetup, script: &Script) -> Result<NetWorld, String> {
     // administrator commands go to whoever is primary
-    let p = (0..w.nodes.len()).find(|i| w.role(*i) == nundb::bo::ClusterRole::Primary).ok_or("no primary after bootstrap")?;
+    let p = (0..w.nodes.len()).find(|i| w.nodes[*i].alive && w.role(*i) == nundb::bo::ClusterRole::Primary).ok_or("no primary after bootstrap")?;
     let mut lines: Vec<String> = vec![format!("auth {} {}", USER, PWD), format!("create-db t tok {}", setup.strategy), "use-db t tok".into()];
     lines.extend(setup.init.iter().cloned());
     let refs: Vec<&str> = lines.iter().map(|s| s.as_str()).collect();
